@@ -269,6 +269,12 @@ def run(chk):
     gen = Gen(seed, 300 if thorough else 32, 400 if thorough else 40, 6 if thorough else 4)
     src = gen.render()
     d = os.path.join(extract.BUILD, "json_corpus")
+    # one corpus crate directory: concurrent C14 runs (different trees, same /verif) take turns
+    import fcntl
+    os.makedirs(extract.BUILD, exist_ok=True)
+    lock = open(os.path.join(extract.BUILD, "json_corpus.lock"), "w")
+    fcntl.flock(lock, fcntl.LOCK_EX)
+    chk._corpus_lock = lock
     if os.path.isdir(d):
         shutil.rmtree(d)
     os.makedirs(os.path.join(d, "src"))
@@ -281,6 +287,8 @@ def run(chk):
     facts_dir, wall = extract.extract_crate(d, f"json-{extract.repo_digest()[0]}")
     with open(os.path.join(facts_dir, "hv_json_corpus.json")) as fh:
         facts = json.load(fh)
+    fcntl.flock(lock, fcntl.LOCK_UN)
+    lock.close()
     hir = facts["hir"]
     chk.extra["corpus"] = {"seed": seed, "types": len(gen.types), "literals": len(gen.lits), "compile_s": wall, "hir_bodies": len(hir)}
 
